@@ -17,15 +17,16 @@ class Check(PropertyCheck):
     ]
     RULE = ("random instance (10 families: classic, irregular, recirculation, flexible, zero durations, unused "
             "machine ids, single job/machine, ties) x random filter configuration x random valid dispatch history "
-            "with invalid requests injected; full state snapshot compared with the Lean model after every request "
+            "with invalid requests injected, in half of the scenarios followed by reset() and a second episode; full state snapshot compared with the Lean model after every request "
             "and the declarative feasibility oracle evaluated on dispatcher.schedule.schedule after every request; "
             "non-trivial = >=3 accepted dispatches; distinct = distinct scenario text")
     ASSUMPTIONS = ["instances are valid (non-empty duplicate-free machine lists, durations >= 0)"]
 
     def generate(self, rng, n, tier):
         for _ in range(n):
+            # every other scenario continues with a second episode after reset(): the clauses hold there as well
             yield slices.dispatch_scenario(rng, with_invalid=True, max_jobs=4 if tier == "quick" else 5,
-                                           max_ops=4 if tier == "quick" else 6)
+                                           max_ops=4 if tier == "quick" else 6, replay=rng.random() < 0.5)
 
     def oracle(self, impl, scenario, index, line, out, ctx):
         res = []
